@@ -37,7 +37,7 @@ struct Choices {
 fn choices() -> impl Strategy<Value = Choices> {
     (
         any::<Index>(),
-        proptest::collection::vec(any::<Index>(), 4),
+        proptest::collection::vec(any::<Index>(), 10),
         proptest::collection::vec(any::<Index>(), 4),
         any::<Index>(),
         proptest::collection::vec(any::<Index>(), 6),
@@ -142,19 +142,20 @@ fn build(c: &Choices) -> Decl {
     // sanitizers
     match inner {
         Inner::Str => {
-            // a random subsequence/order of {trim, lower|upper, one custom}
+            // a random prefix of a random order of {trim, lowercase|uppercase, one custom}
+            // (the macro rejects lowercase together with uppercase)
             let pool: Vec<SanSpec> = vec![
                 SanSpec::Trim,
                 if c.san[0].index(2) == 0 { SanSpec::Lower } else { SanSpec::Upper },
                 SanSpec::With(FnRef::new(["s_trunc5", "s_appendx", "s_padsp", "s_repl", "s_prepz"][c.san[1].index(5)], form(0))),
             ];
             let mut order: Vec<usize> = vec![0, 1, 2];
-            let k = c.san[2].index(6);
-            order.rotate_left(k % 3);
-            if k >= 3 {
-                order.swap(0, 1);
+            for i in 0..2 {
+                let j = i + c.san[4 + i].index(3 - i);
+                order.swap(i, j);
             }
-            let n = c.san[3].index(4); // 0..=3 sanitizers
+            // 0..=3 sanitizers, biased towards 2-3
+            let n = [0, 1, 2, 2, 3, 3][c.san[3].index(6)];
             d.sans = order.into_iter().take(n).map(|i| pool[i].clone()).collect();
         }
         Inner::Int(_) => {
@@ -180,6 +181,8 @@ fn build(c: &Choices) -> Decl {
     }
     // validators
     let custom = c.custom_validation.index(8) == 0;
+    // contradictory bounds can only be spelled as expressions (literal ones are rejected by the macro)
+    let contradictory = c.san[7].index(10) == 0;
     let pform = |i: usize| form(i + 1);
     if custom {
         d.vals = Vals::Custom(FnRef::new(
@@ -196,15 +199,21 @@ fn build(c: &Choices) -> Decl {
         match inner {
             Inner::Int(t) => {
                 // one lower, one upper, one predicate; consistent by construction (lower from the low half)
-                let lower = int_bound(t, &c.bound_pos[0], &c.bound_spell[0], true);
-                let upper = int_bound(t, &c.bound_pos[1], &c.bound_spell[1], false);
+                let (lower, upper) = if contradictory {
+                    (expr_i("const", "KB", 100), [expr_i("const", "KA", 5), expr_i("mod-const", "k::KM", 3), expr_i("shift", "ONE << 2", 4)][c.bound_spell[1].index(3)].clone())
+                } else {
+                    (int_bound(t, &c.bound_pos[0], &c.bound_spell[0], true), int_bound(t, &c.bound_pos[1], &c.bound_spell[1], false))
+                };
                 pool.push(if c.val_kinds[0].index(2) == 0 { ValSpec::Greater(lower) } else { ValSpec::GreaterEq(lower) });
                 pool.push(if c.val_kinds[1].index(2) == 0 { ValSpec::Less(upper) } else { ValSpec::LessEq(upper) });
                 pool.push(ValSpec::Predicate(FnRef::new(["p_even", "p_not7"][c.val_kinds[2].index(2)], pform(0))));
             }
             Inner::F32 | Inner::F64 => {
-                let lower = float_bound(inner.ty(), &c.bound_pos[0], &c.bound_spell[0], true);
-                let upper = float_bound(inner.ty(), &c.bound_pos[1], &c.bound_spell[1], false);
+                let (lower, upper) = if contradictory {
+                    (expr_f("const", "KB", 100.0), [expr_f("const", "ONE", 1.0), expr_f("neg-const", "-KA", -5.0), expr_f("arith", "KA + 2.0", 7.0)][c.bound_spell[1].index(3)].clone())
+                } else {
+                    (float_bound(inner.ty(), &c.bound_pos[0], &c.bound_spell[0], true), float_bound(inner.ty(), &c.bound_pos[1], &c.bound_spell[1], false))
+                };
                 pool.push(if c.val_kinds[0].index(2) == 0 { ValSpec::Greater(lower) } else { ValSpec::GreaterEq(lower) });
                 pool.push(if c.val_kinds[1].index(2) == 0 { ValSpec::Less(upper) } else { ValSpec::LessEq(upper) });
                 pool.push(ValSpec::Finite);
@@ -213,8 +222,13 @@ fn build(c: &Choices) -> Decl {
             Inner::Str => {
                 let lo = [0u128, 1, 2, 3][c.bound_pos[0].index(4)];
                 let hi = [3u128, 4, 5, 8, 12, 40][c.bound_pos[1].index(6)];
+                if contradictory {
+                    pool.push(ValSpec::LenCharMin(spelled("const", "KA", "KA", Num::U(5), false)));
+                    pool.push(ValSpec::LenCharMax(spelled("mod-const", "k::KM", "k::KM", Num::U(3), false)));
+                } else {
                 pool.push(ValSpec::LenCharMin(if c.bound_spell[0].index(3) == 0 && lo == 3 { spelled("mod-const", "k::KM", "k::KM", Num::U(3), false) } else { lit_u(lo) }));
                 pool.push(ValSpec::LenCharMax(if c.bound_spell[1].index(3) == 0 && hi == 5 { spelled("const", "KA", "KA", Num::U(5), false) } else { lit_u(hi) }));
+                }
                 pool.push(ValSpec::NotEmpty);
                 pool.push(ValSpec::Predicate(FnRef::new(["p_has_at", "p_ascii", "p_no_a"][c.val_kinds[2].index(3)], pform(0))));
                 pool.push(ValSpec::Regex {
@@ -234,6 +248,47 @@ fn build(c: &Choices) -> Decl {
         }
         let picked: Vec<ValSpec> = order.into_iter().take(n).map(|i| pool[i].clone()).collect();
         d.vals = if picked.is_empty() { Vals::None } else { Vals::Std(picked) };
+    }
+    // generic declarations `W<T: HasX>(T)` / `W<T: Ord + Clone>(Vec<T>)`: the same rules through the generic
+    // twins of the custom functions (the harness instantiates them at Point / i32)
+    if c.san[8].index(3) == 0 && matches!(inner, Inner::Point | Inner::VecI32) {
+        let generic_name = |n: &str| match (inner, n) {
+            (Inner::Point, "p_xpos") => Some("g_p_xpos"),
+            (Inner::VecI32, "s_sort") => Some("g_s_sort"),
+            (Inner::VecI32, "s_dedup") => Some("g_s_dedup"),
+            (Inner::VecI32, "s_take3") => Some("g_s_take3"),
+            (Inner::VecI32, "p_nonempty") => Some("g_p_nonempty"),
+            (Inner::VecI32, "p_short") => Some("g_p_short"),
+            _ => None,
+        };
+        let sans_ok = d.sans.iter().all(|s| matches!(s, SanSpec::With(fr) if generic_name(&fr.name).is_some()));
+        let vals_ok = match &d.vals {
+            Vals::None => true,
+            Vals::Custom(_) => false,
+            Vals::Std(vs) => vs.iter().all(|v| matches!(v, ValSpec::Predicate(fr) if generic_name(&fr.name).is_some())),
+        };
+        if sans_ok && vals_ok {
+            let rename = |fr: &mut FnRef| {
+                fr.name = generic_name(&fr.name).unwrap().to_string();
+                if fr.form == FnForm::ConstPath {
+                    fr.form = FnForm::Closure;
+                }
+            };
+            for s in d.sans.iter_mut() {
+                if let SanSpec::With(fr) = s {
+                    rename(fr);
+                }
+            }
+            if let Vals::Std(vs) = &mut d.vals {
+                for v in vs.iter_mut() {
+                    if let ValSpec::Predicate(fr) = v {
+                        rename(fr);
+                    }
+                }
+            }
+            d.generic = if inner == Inner::Point { Generic::T } else { Generic::VecT };
+            d.tags.push("random:generic".into());
+        }
     }
     // default
     // a default exactly at one of the declared bounds (the interesting place for exclusive bounds)
@@ -256,8 +311,25 @@ fn build(c: &Choices) -> Decl {
             d.default = Some(DefaultSpec { macro_text: m.into(), neutral_text: m.into(), class: class.into() });
         }
     }
+    // a generic declaration can only state a default that is generic too
+    if d.default.is_some() {
+        match d.generic {
+            Generic::None => {}
+            Generic::T => d.default = Some(DefaultSpec { macro_text: "T::default()".into(), neutral_text: "Point::default()".into(), class: "generic-depends-on-T".into() }),
+            Generic::VecT => d.default = Some(DefaultSpec { macro_text: "Vec::new()".into(), neutral_text: "Vec::new()".into(), class: "maybe-invalid".into() }),
+        }
+    }
     // derive set: random subset of the admissible traits, prerequisites added
-    let all = full_derives(&d);
+    let mut all = full_derives(&d);
+    // nothing validated: `From`, or `TryFrom` with an uninhabited error (never both: they overlap)
+    if c.san[9].index(2) == 0 {
+        for t in all.iter_mut() {
+            if *t == Tr::From {
+                *t = Tr::TryFrom;
+            }
+        }
+        all.sort();
+    }
     let mut picked: Vec<Tr> = all.iter().enumerate().filter(|(i, _)| c.derive_bits & (1 << (i % 32)) != 0).map(|(_, t)| *t).collect();
     let need = |p: &mut Vec<Tr>, t: Tr| {
         if !p.contains(&t) {
@@ -279,6 +351,13 @@ fn build(c: &Choices) -> Decl {
     if picked.contains(&Tr::Ord) && !(all.contains(&Tr::Eq) && all.contains(&Tr::PartialOrd)) {
         picked.retain(|t| *t != Tr::Ord);
     }
+    // an empty valid set leaves nothing for Arbitrary to produce
+    let has_lo = d.std_vals().iter().any(|v| matches!(v, ValSpec::Greater(_) | ValSpec::GreaterEq(_) | ValSpec::LenCharMin(_)));
+    let has_hi = d.std_vals().iter().any(|v| matches!(v, ValSpec::Less(_) | ValSpec::LessEq(_) | ValSpec::LenCharMax(_)));
+    if contradictory && has_lo && has_hi {
+        picked.retain(|t| *t != Tr::Arbitrary);
+        d.tags.push("random:contradictory".into());
+    }
     picked.sort();
     picked.dedup();
     d.derives = picked;
@@ -292,7 +371,7 @@ fn build(c: &Choices) -> Decl {
     d.layout = Layout { order: order.into_iter().map(|i| blocks[i]).collect(), trailing_comma_outer: c.commas.0, trailing_comma_inner: c.commas.1 };
     d.new_unchecked = c.derive_bits & (1 << 31) != 0;
     // const_fn on numeric / Point declarations: custom functions must then be `const fn` paths
-    if c.derive_bits & (1 << 30) != 0 && c.derive_bits & (1 << 29) != 0 && !matches!(inner, Inner::Str | Inner::VecI32) {
+    if c.derive_bits & (1 << 30) != 0 && c.derive_bits & (1 << 29) != 0 && !matches!(inner, Inner::Str | Inner::VecI32) && d.generic == Generic::None {
         let const_ok = |fr: &FnRef| match inner {
             Inner::Int(_) => matches!(fr.name.as_str(), "s_clamp" | "s_wadd1" | "p_even" | "v_small"),
             Inner::F32 | Inner::F64 => matches!(fr.name.as_str(), "s_clamp" | "p_not50"),
@@ -329,7 +408,7 @@ fn build(c: &Choices) -> Decl {
             d.tags.push("random:const_fn".into());
         }
     }
-    d.tags = vec!["random".into()];
+    d.tags.insert(0, "random".into());
     d
 }
 
